@@ -4,10 +4,12 @@ package retry
 // overlaid into each of the six `internal/retry` packages by the legs loop_* of checks/C14.json).
 //
 //   loop <gen> <wmode f|r> <enabled> <initial> <maxInterval> <maxElapsed> <cancel -|j:c> <script>
-//        => <res> <attempts> <delays|-> <elapsed lo:hi,…|-> g<bits|-> p<0|1|->
+//        => <res> <attempts> <delays|-> <elapsed lo:hi,…|-> g<bits|-> p<0|1|-> t<ns>
 //     script: comma separated items  o | f | r<throttle ns>  each optionally followed by @<sleep µs>
 //     wmode f: waitFunc replaced by a recorder (returns at once; implements "ctx done c ns into wait j");
-//     wmode r: the real wait(); cancel j:0 = the context is cancelled inside attempt j.
+//     wmode r: the real wait() (wrapped only to record the requested delay and the time it is entered);
+//              cancel j:0 = the context is cancelled inside attempt j.
+//     t: wall time of the whole call (an upper-bound sanity check with 2 s slack only, never compared tightly)
 //     res: ok | fatal | retry (Enabled=false, the retryable error returned as is) | elapsed | would | cancel | other
 //     elapsed: per attempt, bounds [lo,hi] (ns) on what time.Since(startTime) can have read after it
 //     g: per real wait, 1 iff the next attempt started no earlier than the throttle after the failure
@@ -96,7 +98,12 @@ func vRunLoop(out *vOut, c vLoopCase) {
 			return nil
 		}
 	} else {
-		waitFunc = wait
+		// the real wait(), wrapped only to record when it is entered and which delay was requested
+		waitFunc = func(ctx context.Context, d time.Duration) error {
+			hiMark = append(hiMark, time.Now())
+			delays = append(delays, strconv.FormatInt(int64(d), 10))
+			return wait(ctx, d)
+		}
 	}
 	fn := func(ctx context.Context) error {
 		fnEntry = append(fnEntry, time.Now())
@@ -159,7 +166,7 @@ func vRunLoop(out *vOut, c vLoopCase) {
 		lo := fnRet[i].Sub(fnEntry[0])
 		var hiT time.Time
 		switch {
-		case c.wmode == "f" && i < len(hiMark):
+		case i < len(hiMark):
 			hiT = hiMark[i]
 		case i+1 < n:
 			hiT = fnEntry[i+1]
@@ -206,8 +213,8 @@ func vRunLoop(out *vOut, c vLoopCase) {
 	if n > 0 {
 		es = strings.Join(el, ",")
 	}
-	out.Line("loop %s %s %d %d %d %d %s %s => %s %d %s %s g%s p%s", c.gen, c.wmode, vB(c.enabled), c.initial, c.maxI, c.maxE,
-		c.cancel, strings.Join(c.script, ","), res, n, ds, es, g, p)
+	out.Line("loop %s %s %d %d %d %d %s %s => %s %d %s %s g%s p%s t%d", c.gen, c.wmode, vB(c.enabled), c.initial, c.maxI, c.maxE,
+		c.cancel, strings.Join(c.script, ","), res, n, ds, es, g, p, int64(tAfter.Sub(tBefore)))
 }
 
 func vB(b bool) int {
@@ -288,6 +295,22 @@ func TestVerifC14Loop(t *testing.T) {
 	}{{0, "n"}, {1000, "n"}, {1000000, "n"}, {3000000, "n"}, {hour, "pre"}, {hour, "d500"}, {hour, "t1000"},
 		{1000000, "d200000"}, {500000, "t200000"}, {0, "pre"}, {-5, "n"}, {hour, "d3000"}, {1000000000, "pre"}} {
 		vRunWait(out, "tab", w.d, w.m)
+	}
+
+	// "budget": real waits under a small MaxElapsedTime and a script that never ends by itself — the call has to
+	// give up by the clock; number of attempts and return time are bounded (retry_attempts_bounded, retry_returns_by)
+	for i := 0; i < 10+n/300 && i < 60; i++ {
+		ini := vPick(r, []int64{1000000, 2000000, 600000})
+		c := vLoopCase{gen: "budget", wmode: "r", enabled: true, initial: ini, maxI: ini * int64(1+r.Intn(2)),
+			maxE: vPick(r, []int64{3000000, 4000000, 5000000}), cancel: "-"}
+		for j := 0; j < 14; j++ {
+			c.script = append(c.script, vPick(r, []string{"r0", "r0", "r0", "r1000", "r300000"}))
+		}
+		if r.Intn(4) == 0 {
+			c.script[r.Intn(3)] = "r0@2500" // one slow attempt
+		}
+		c.script = append(c.script, "o")
+		vRunLoop(out, c)
 	}
 
 	sleeps, reals := 0, 0
